@@ -467,7 +467,11 @@ fn outcome_str(o: &Outcome) -> String {
   match o {
     Outcome::Ok => "ok".to_string(),
     Outcome::Err(m) => {
-      if let Some(rest) = m.strip_prefix("injected-") { if rest.parse::<usize>().is_ok() { return format!("err {}", rest); } }
+      // "that error": the injected failure, possibly wrapped in context by the loop (the wording is not part of C20)
+      if let Some(p) = m.find("injected-") {
+        let digits: String = m[p + 9..].chars().take_while(|c| c.is_ascii_digit()).collect();
+        if !digits.is_empty() { return format!("err {}", digits); }
+      }
       format!("err other:{}", m.replace(' ', "_"))
     },
     Outcome::Starved => "starved".to_string(),
